@@ -12,18 +12,38 @@ void sim_set_rank(int r) { (void)r; }
 void *rank_main(void *);
 static int writes(int m) { return m == M_OUT || m == M_INOUT; }
 static int reads(int m) { return m == M_IN || m == M_INOUT; }
-void dtdh_event(int rank, int kind, long a, long b) { (void)rank; (void)kind; (void)a; (void)b; }
+static int jitter_us;
+void dtdh_event(int rank, int kind, long a, long b)
+{
+    (void)rank; (void)a; (void)b;
+    /* optional random pause before each insertion, to vary the insertion/execution overlap */
+    if (kind == 1 && jitter_us > 0) { int d = rand() % jitter_us; if (d) usleep(d); }
+}
 int dtdh_body(int rank, int id, int nparams, int64_t **p)
 {
     dtd_task_desc_t *d = &SH.tasks[id];
     int64_t h = id + 1;
-    char line[256]; int n = snprintf(line, sizeof(line), "BODY rank=%d task=%d", rank, id);
+    char line[512]; int n = snprintf(line, sizeof(line), "BODY rank=%d task=%d", rank, id);
     for (int i = 0; i < nparams; i++) {
         if (!p[i]) { n += snprintf(line + n, sizeof(line) - n, " p%d=NULL!", i); continue; }
         if (reads(d->mode[i])) { h = h * 1000003 + p[i][0]; n += snprintf(line + n, sizeof(line) - n, " in%d(t%d)=%lld", i, d->tile[i], (long long)p[i][0]); }
     }
+    /* conflicting accesses in flight on this rank (real threads, so use atomics) */
+    static int rd_inflight[DTD_MAX_TILES], wr_inflight[DTD_MAX_TILES];
+    for (int i = 0; i < nparams; i++) {
+        int t = d->tile[i];
+        if (writes(d->mode[i])) {
+            int r = __atomic_load_n(&rd_inflight[t], __ATOMIC_SEQ_CST), w = __atomic_fetch_add(&wr_inflight[t], 1, __ATOMIC_SEQ_CST);
+            if (r || w) n += snprintf(line + n, sizeof(line) - n, " OVERLAP(writer of t%d starts with %d readers %d writers running)", t, r, w);
+        } else {
+            int w = __atomic_load_n(&wr_inflight[t], __ATOMIC_SEQ_CST);
+            __atomic_fetch_add(&rd_inflight[t], 1, __ATOMIC_SEQ_CST);
+            if (w) n += snprintf(line + n, sizeof(line) - n, " OVERLAP(reader of t%d starts with %d writers running)", t, w);
+        }
+    }
     usleep(d->delay / 1000 + 1);
     for (int i = 0; i < nparams; i++) if (p[i] && writes(d->mode[i])) { int64_t v = (h * 31 + i) & 0xffffffffff; for (int j = 0; j < SH.nelems; j++) p[i][j] = v + j; n += snprintf(line + n, sizeof(line) - n, " out%d(t%d)=%lld", i, d->tile[i], (long long)v); }
+    for (int i = 0; i < nparams; i++) { if (writes(d->mode[i])) __atomic_fetch_sub(&wr_inflight[d->tile[i]], 1, __ATOMIC_SEQ_CST); else __atomic_fetch_sub(&rd_inflight[d->tile[i]], 1, __ATOMIC_SEQ_CST); }
     puts(line); fflush(stdout);
     return 0;
 }
@@ -33,6 +53,7 @@ int main(int argc, char **argv)
     if (!f || fread(&SH, sizeof(SH), 1, f) != 1) { fprintf(stderr, "cannot read %s\n", argv[1]); return 2; }
     fclose(f);
     if (argc > 2) setenv("PARSEC_MCA_mca_sched", argv[2], 1);
+    if (getenv("DTD_REAL_JITTER_US")) { jitter_us = atoi(getenv("DTD_REAL_JITTER_US")); srand(getenv("DTD_REAL_SEED") ? atoi(getenv("DTD_REAL_SEED")) : getpid()); }
     const char *r = getenv("OMPI_COMM_WORLD_RANK");
     dtd_rank_arg_t ra = {&SH, r ? atoi(r) : 0};
     if (getenv("DTD_REAL_LOG")) { char fn[256]; snprintf(fn, sizeof(fn), "%s.%d", getenv("DTD_REAL_LOG"), ra.rank); if (!freopen(fn, "w", stdout)) return 2; }
